@@ -52,6 +52,11 @@ func (in *c17Injector) hit(kind string) error {
 	in.kinds = append(in.kinds, kind)
 	if in.n == in.failAt {
 		in.sent = &c17Sentinel{in.n}
+		if kind != "loader" && in.n%3 == 0 {
+			// a callback failure that also carries a "not found" cause (a function that loads something): still a failure of
+			// the callback, not a missing template of the include that happens to surround it
+			return fmt.Errorf("callback could not load its data: %w", errors.Join(in.sent, twig.ErrTemplateNotFound))
+		}
 		return in.sent
 	}
 	return nil
@@ -273,6 +278,7 @@ var c17Unresolvable = []string{
 	"{{ v|nosuchfilter }}", "{{ v|sf1|nosuchfilter|sf2 }}", "{{ nosuchfunction(1) }}", "{% if v is nosuchtest %}x{% endif %}", "{% for i in xs|nosuchfilter %}x{% endfor %}", "{% apply nosuchfilter %}x{% endapply %}",
 	"{% set q = nosuchfunction() %}", "{% import 'lib' as L %}{{ L.nomacro() }}", "{% from 'lib' import nomacro %}", "{% from 'lib' import lm, nomacro as z %}{{ lm(1) }}", "{{ nomacro_at_all(1) }}", "{{ _self.nomacro() }}",
 	"{% include 'no_such_template' %}", "{% include 'no_such_template' with {'a': 1} only %}", "{% import 'no_such_template' as X %}", "{% from 'no_such_template' import a %}", "{% include 'inc_bad' %}", "{% include 'inc_bad' ignore missing %}",
+	"{% include 'inc_nested_missing' ignore missing %}", "{% include 'inc_ext_missing' ignore missing %}", "{% include 'inc_imp_missing' ignore missing %}", "{% include 'inc_nested_missing' %}",
 	"{{ mm(nosuchfunction()) }}", "{{ [1, v|nosuchfilter]|length }}", "{{ yes ? nosuchfunction() : 1 }}", "{% if no %}{% elseif v|nosuchfilter %}x{% endif %}", "{{ zz|default(v|nosuchfilter) }}", "{% do nosuchfunction() %}",
 }
 
@@ -280,6 +286,9 @@ func (p *c17) unresolvable(rec *core.Recorder, r *core.Rand) {
 	frag := c17Unresolvable[r.Intn(len(c17Unresolvable))]
 	srcs, main := p.build(r)
 	srcs["inc_bad"] = "x{{ v|nosuchfilter }}y"
+	srcs["inc_nested_missing"] = "x{% include 'nowhere_to_be_found' %}y"
+	srcs["inc_ext_missing"] = "{% extends 'nowhere_to_be_found' %}{% block b %}x{% endblock %}"
+	srcs["inc_imp_missing"] = "{% import 'nowhere_to_be_found' as q %}x"
 	// put the fragment at a random structural place
 	wrap := []string{"%s", "pre{{ v|sf1 }}%s", "{% for i in [1, 2] %}%s{% endfor %}", "{% if yes %}%s{% endif %}", "{% block ub %}%s{% endblock %}", "{% macro um() %}%s{% endmacro %}{{ um() }}", "{% apply sf1 %}%s{% endapply %}", "{% spaceless %}%s{% endspaceless %}"}[r.Intn(8)]
 	body := "{% macro mm(a, b = 1) %}({{ a }}{{ b }}){% endmacro %}" + strings.Replace(wrap, "%s", frag, 1)
